@@ -21,7 +21,7 @@ ASSUMPTIONS = ['SHA-384 collision resistance (a writer is model-accepted iff its
                'declared length and hashlib.sha384 equals the blob name)',
                'a final chunk that straddles the declared length is not a complete correct copy (the real client caps chunks)',
                'disk-write failures inside _write_blob are out of scope (not a peer behaviour)']
-REQUIRED_HITS = ['S1.steps_checked', 'S1.bad_only_case', 'L1.checked', 'L1.multi_writer', 'S2.callback_seen',
+REQUIRED_HITS = ['L1.second_download_checked', 'S1.steps_checked', 'S1.bad_only_case', 'L1.checked', 'L1.multi_writer', 'S2.callback_seen',
                  'schedule.same_iteration_double_win', 'kind.flip', 'kind.trunc_closed', 'kind.overlong_straddle',
                  'kind.unrelated', 'kind.overlong_later', 'decl.too_big', 'decl.zero', 'decl.unknown']
 MAX = 2 * 1024 * 1024
@@ -283,7 +283,15 @@ async def _run(rec, r, content, kinds, decl, blobkind, steps, case):
         if late_set:
             late_set = s
             continue
+        before = blob.get_length()
         blob.set_length(s)
+        if before is None and isinstance(s, int) and 0 < s <= MAX and blob.get_length() != s:
+            rec.violation('C01/L1/legal-announced-length-refused', f'set_length({s}) on a blob of unknown length was refused (0 < n <= 2 MiB is the '
+                          f'range the statement quantifies over); length is now {blob.get_length()}', {'announced': s, 'now': blob.get_length()})
+            return
+    if ctor_len is not None and blob.get_length() != ctor_len:
+        rec.violation('C01/L1/legal-announced-length-refused', f'length {ctor_len} given at construction is not what the blob reports', {})
+        return
 
     # ---- writers
     plans, writers, models = [], [], []
@@ -494,6 +502,40 @@ async def _run(rec, r, content, kinds, decl, blobkind, steps, case):
             rec.hit('S2.callback_seen')
         else:
             rec.violation('C01/L1/completion-not-announced', 'blob verified but the completion callback never fired', {'kinds': kinds, 'events': events[-20:]})
+    # ---- second life of the same blob object (added after seeded break C01-C): once it is not verified any more - deleted, or a
+    # BlobBuffer read through its one-shot reader - a later complete correct copy must verify it again
+    if ok and accepted_any and not rec.violations and case.get('fam') in ('rand', 'doublewin') and n <= 70000:
+        if blobkind == 'file':
+            blob.delete()
+        if not blob.get_is_verified():
+            rec.hit('L1.second_download_checked')
+            if blob.get_length() is None:
+                blob.set_length(n)
+            cb_before = len(cb_calls)
+            try:
+                w2 = blob.get_blob_writer('10.0.9.9', 3333)
+                for c in chunk(r, content, 'rand'):
+                    if w2.closed():
+                        break           # complete: a trailing empty chunk would be a write to a finished writer
+                    w2.write(c)
+            except Exception as e:  # noqa
+                rec.violation(f'C01/L1/second-download-refused/{type(e).__name__}', f'after the {blobkind} blob stopped being verified a new writer '
+                              f'could not deliver it again: {e!r}', {'blob': blobkind})
+                w2 = None
+            if w2 is not None:
+                await _drain(4)
+                if write_tasks:
+                    await asyncio.wait(write_tasks, timeout=60)
+                await _drain(4)
+                if not blob.get_is_verified() or len(cb_calls) != cb_before + 1:
+                    rec.violation('C01/L1/not-verified-after-correct-copy/second-download-on-same-object',
+                                  f'the {blobkind} blob was verified, then {"deleted" if blobkind == "file" else "consumed by its one-shot reader"}; a later '
+                                  f'complete correct copy did not verify it again (verified={blob.get_is_verified()}, callbacks {len(cb_calls) - cb_before})',
+                                  {'blob': blobkind, 'writing_flag': blob.writing.is_set()})
+                else:
+                    with blob.reader_context() as f:
+                        if f.read() != content:
+                            rec.violation('C01/L1/stored-bytes-not-the-content', 'second download stored different bytes', {'blob': blobkind})
     for t in sorted(exc_types):
         rec.log('write_raised.' + t)
     lcls = 'big' if n >= 65536 else ('mid' if n > 300 else 'small')
